@@ -16,14 +16,15 @@ ID = 'C18'
 RULE = ('Parents: every entry kind and postings, parsed from generated texts whose existing meta layout is one of none / uniform indent of '
         'width 1-8 in spaces or tabs / mixed indents, with posting indents over blanks; indent_by over [ \\t]{0,8} set after parsing or at construction; '
         'routes: meta[key] = value, raw_meta.append(MetaItem.from_value(indent=X)), raw_meta_with_comments.append(BlockComment.from_value(indent=X)), '
-        'leading_comment / trailing_comment setters on postings and meta items, from_value(meta={...}) for entries and postings. Oracle: a meta item '
+        'leading_comment / trailing_comment setters on postings and meta items, from_value(meta={...}) for entries and postings, and parents built with '
+        'every constructor that accepts indent_by (found by reflection; arguments planned as in C15), optionally with their meta cleared, then meta[key] = value. Oracle: a meta item '
         'created from a plain value takes the indent its existing siblings share, or parent indent + indent_by when there are none (any existing '
         'sibling\'s indent when they disagree); a comment created by an indented owner\'s setter has the owner\'s indent; an inserted raw node keeps its '
         'indent verbatim; every pre-existing indent token and comment indent is unchanged. Non-trivial = indent_by != four spaces, or the parent is a '
         'posting, or the existing items use a non-default indent.')
 ASSUMPTIONS = ['with disagreeing sibling indents any sibling\'s indent is accepted (docs and code differ on first vs last)']
 SHRINK_LISTS = ('ops',)
-REQUIRED_CLASSES = ('meta-view-used-before', 'parent-reindented', 'route:map-set', 'route:raw-append', 'route:comment-append', 'route:comment-setter', 'route:from_value', 'parent:posting', 'parent:entry',
+REQUIRED_CLASSES = ('meta-view-used-before', 'parent-reindented', 'route:map-set', 'route:raw-append', 'route:comment-append', 'route:comment-setter', 'route:from_value', 'route:constructed', 'constructed:from_value', 'constructed:from_children', 'constructed:cleared', 'parent:posting', 'parent:entry',
                     'layout:none', 'layout:uniform', 'layout:mixed')
 
 ENTRY_KINDS = sorted(L.G.ENTRY_KINDS)
@@ -47,6 +48,8 @@ def run_case(case: dict) -> Result:
     iby = case.get('indent_by')
     if route == 'from_value':
         return _from_value(case, res)
+    if route == 'constructed':
+        return _constructed(case, res)
     root = common.parse_case(case)
     if root is None:
         return Result(discard=True)
@@ -172,14 +175,85 @@ def _from_value(case: dict, res: Result) -> Result:
     return res
 
 
+def constructible() -> list:
+    """(class name, constructor name) for every public constructor that accepts indent_by (found by reflection)."""
+    import inspect
+    from vf.props import c15
+    out = []
+    for cname in c15.CLASSES:
+        for how in ('from_value', 'from_children'):
+            fn = getattr(getattr(models, cname), how, None)
+            if fn is not None and 'indent_by' in inspect.signature(fn).parameters:
+                out.append((cname, how))
+    return out
+
+
+def _constructed(case: dict, res: Result) -> Result:
+    """indent_by given at construction (from_value / from_children) is the parent's indent_by for everything created later."""
+    from vf.props import c15
+    spec = case['spec']
+    cname, how = spec['cls'], spec['how']
+    want = spec['args']['indent_by']['v'] if 'indent_by' in spec['args'] else '    '
+    classes = {'route:constructed', f'constructed:{how}', 'parent:posting' if cname == 'Posting' else 'parent:entry'}
+    try:
+        m = c15.realise(spec)
+    except Exception:  # noqa: BLE001 - constructor behaviour is C15's
+        return Result(discard=True)
+    what = f'{cname}.{how}(indent_by={want!r}, ...) [{O.print_text(m)!r}]'
+    if m.indent_by != want:
+        res.bad(f'constructed-indent_by:{cname}.{how}', f'{what}: the built model reports indent_by {m.indent_by!r}')
+    try:
+        if case.get('clear') == 'view':
+            m.meta.clear()
+        elif case.get('clear') == 'raw':
+            m.raw_meta_with_comments.clear()
+        if case.get('clear'):
+            classes.add('constructed:cleared')
+        before = existing_indents(m)
+        sib = [x.indent for x in m.raw_meta]
+        key = case['key']
+        if any(x.key == key for x in m.raw_meta):
+            return Result(discard=True)
+        m.meta[key] = D.decode(case['v'])
+    except common.REFUSAL:
+        return Result(discard=True)
+    new_item = [x for x in m.raw_meta if x.key == key][-1]
+    parent_indent = m.indent if cname == 'Posting' else ''
+    allowed = set(sib) if sib else {parent_indent + want}
+    layout = 'none' if not sib else 'uniform' if len(set(sib)) == 1 else 'mixed'
+    classes.add('layout:' + layout)
+    if new_item.indent not in allowed:
+        res.bad(f'created-meta-indent:constructed:{layout}:{cname}.{how}', f'{what}, sibling indents {sib!r}: meta[{key!r}] = ... created an item with indent '
+                f'{new_item.indent!r}, expected {sorted(allowed)!r}')
+    after = dict(existing_indents(m))
+    for tid, ind in before:
+        if tid in after and after[tid] != ind:
+            res.bad('existing-indent-changed', f'{what}: an existing line\'s indentation changed from {ind!r} to {after[tid]!r}')
+            break
+    res.classes = sorted(classes)
+    res.nontrivial = want != '    ' or cname == 'Posting'
+    return res
+
+
 def _build(tier: str):
     cfg = L.Cfg(comments=0.15, hazard_text=0.05)
 
     def build(rnd: Any) -> dict:
         g = L.G(rnd, cfg)
-        route = g.pick(['map-set', 'map-set', 'raw-append', 'comment-append', 'comment-setter', 'from_value'])
+        route = g.pick(['map-set', 'map-set', 'raw-append', 'comment-append', 'comment-setter', 'from_value', 'constructed'])
         iby = None if g.p(0.3) else g.chars(' \t', 0, 8)
         blanks = lambda: g.pick(['  ', '    ', '\t', ' ', ' \t ', g.chars(' \t', 1, 8)])  # noqa: E731
+        if route == 'constructed':
+            from vf.props import c15
+            cname, how = g.pick(constructible())
+            spec = c15.plan(g, cname, how, indent=blanks() if cname in c15.INDENTED else None)
+            if iby is not None:
+                spec['args']['indent_by'] = {'vt': 'str', 'v': iby}
+            else:
+                spec['args'].pop('indent_by', None)
+            if g.p(0.5):
+                spec['args'].pop('meta', None)
+            return {'route': route, 'spec': spec, 'clear': g.pick([None, None, 'view', 'raw']), 'key': g.meta_key()[1][:-1] + 'x', 'v': D.value('meta_value', g)}
         if route == 'from_value':
             meta = [[g.meta_key()[1][:-1] + str(i), D.value('meta_value', g)] for i in range(g.n(1, 3))]
             return {'route': route, 'indent_by': iby, 'kind': g.pick(['posting', 'posting', 'open', 'close', 'transaction', 'note', 'balance', 'commodity']),
@@ -215,5 +289,20 @@ def _build(tier: str):
     return build
 
 
+def _sweep_constructed():
+    """Every constructor accepting indent_by x indent_by in a fixed pool (and omitted) x meta given or not x cleared or not."""
+    import itertools
+    import random
+    from vf.props import c15
+    g = L.G(random.Random(18), L.Cfg())
+    for (cname, how), iby, with_meta, clear in itertools.product(constructible(), (None, '', ' ', '  ', '\t', ' \t', '        '), (False, True), (None, 'view', 'raw')):
+        present = {'meta'} if with_meta else set()
+        spec = c15.plan(g, cname, how, present=present, indent='  ' if cname in c15.INDENTED else None)
+        if iby is not None:
+            spec['args']['indent_by'] = {'vt': 'str', 'v': iby}
+        yield {'route': 'constructed', 'spec': spec, 'clear': clear, 'key': 'zzx', 'v': {'vt': 'str', 'v': 'new'}}
+
+
 def jobs(tier: str) -> list[Job]:
-    return [Job('indent-routes', 'hyp', lambda: _build(tier), 3000 if tier == 'quick' else 100000)]
+    return [Job('indent-routes', 'hyp', lambda: _build(tier), 3000 if tier == 'quick' else 100000),
+            Job('constructed-sweep', 'enum', _sweep_constructed, exhaustive=True)]
